@@ -73,6 +73,19 @@ func (m *mod) text() string {
 			fmt.Fprintf(&b, "  leaf r%s%d { type identityref { base %s; } }\n", m.name, i, q)
 		}
 	}
+	// all of them once more as the members of one union (distinct bases are distinct
+	// members, however alike their names and prefixes look)
+	if len(m.refq) >= 2 {
+		fmt.Fprintf(&b, "  leaf u%s { type union {", m.name)
+		seen := map[*ident]bool{}
+		for i, q := range m.refq {
+			if !seen[m.refs[i]] {
+				seen[m.refs[i]] = true
+				fmt.Fprintf(&b, " type identityref { base %s; }", q)
+			}
+		}
+		b.WriteString(" } }\n")
+	}
 	b.WriteString("}\n")
 	return b.String()
 }
@@ -460,6 +473,31 @@ func Run(j *job.Job, s *job.Sink) {
 								bad("order-unstable", "%s lists %q in one load and %q in another", key, prev, o)
 							}
 							orders[key] = o
+						}
+					}
+					if len(m.refs) >= 2 {
+						var wantU []*ident
+						seenU := map[*ident]bool{}
+						for _, w := range m.refs {
+							if !seenU[w] {
+								seenU[w] = true
+								wantU = append(wantU, w)
+							}
+						}
+						ul := e.Dir["u"+m.name]
+						switch {
+						case ul == nil || ul.Type == nil:
+							bad("identityref-unresolved", "leaf u%s", m.name)
+						case len(wantU) >= 2 && len(ul.Type.Type) != len(wantU):
+							bad("identityref-union-members", "leaf u%s: the union has %d members, %d identityrefs with distinct bases were written", m.name, len(ul.Type.Type), len(wantU))
+						case len(wantU) >= 2:
+							for k, w := range wantU {
+								ib := ul.Type.Type[k].IdentityBase
+								if ib == nil || ownerName(ib) != w.mod.name || ib.Name != w.name {
+									bad("identityref-wrong-base", "leaf u%s: union member %d does not point at %s:%s", m.name, k, w.mod.name, w.name)
+								}
+							}
+							s.Count("identityref_union_checks", 1)
 						}
 					}
 					for i, want := range m.refs {
